@@ -100,7 +100,9 @@ DeleteColl(c) ==
 
 Proppatch(c, p, set, v) ==
     /\ rq' = [op |-> "Proppatch", c |-> c, p |-> p, set |-> set, v |-> v]
-    /\ Apply(ProppatchOutcome(st, rq'), c)
+    /\ IF Exists(st, c) /\ ~PropOK(st.colls[c], p)
+         THEN resp' = "refused" /\ UNCHANGED <<st, hist>>      \* per-property refusal
+         ELSE Apply(ProppatchOutcome(st, rq'), c)
 
 Restart ==
     /\ rq' = [op |-> "Restart"]
